@@ -495,10 +495,14 @@ class _FragmentCompiler:
             lhs_masks = LHSMaskCollector()
             lhs_masks.visit_stmt(domain_stmts)
 
+            # The data output of a synchronous memory read port is only ever updated by an enabled read;
+            # it is not affected by the domain reset (the emitted `$memrd_v2` cell has no reset either).
+            read_port_signals = SignalSet()
             if isinstance(fragment, MemoryInstance):
                 for port in fragment._read_ports:
                     if port._domain == domain_name:
                         lhs_masks.visit_value(port._data, ~0)
+                        read_port_signals.update(port._data._lhs_signals())
 
             emitter = _PythonEmitter()
             emitter.append(f"def run():")
@@ -550,7 +554,7 @@ class _FragmentCompiler:
                     emitter.append("if not process.clocked:")
                     with emitter.indent():
                         for (signal, mask) in lhs_masks.masks():
-                            if not signal.reset_less:
+                            if not signal.reset_less and signal not in read_port_signals:
                                 if signal.shape().signed and (mask & 1 << (len(signal) - 1)):
                                     mask |= -1 << len(signal)
                                 signal_index = self.state.get_signal(signal)
@@ -568,7 +572,7 @@ class _FragmentCompiler:
                     with emitter.indent():
                         emitter.append("pass")
                         for (signal, _) in lhs_masks.masks():
-                            if not signal.reset_less:
+                            if not signal.reset_less and signal not in read_port_signals:
                                 signal_index = self.state.get_signal(signal)
                                 emitter.append(f"next_{signal_index} = {signal.init}")
 
